@@ -254,7 +254,9 @@ def binar(a):
 # ----------------------------------------------------------------------------- thresholds
 def threshold(metric: str):
     """A threshold spec: {'v': float} or {'score': i} (= the score of the i-th candidate
-    pair of the case, computed by the model at check time: exact-threshold hits)."""
+    pair of the case, computed by the model at check time: exact-threshold hits); for the overlap
+    metrics also {'score': i, 'nudge': +-1}: that score moved by a relative 2e-10 (a threshold that
+    is missed, or met, by far less than any tolerance someone might be tempted to apply)."""
     if metric == "ASSD":
         fixed = [0.0, 0.5, 1.0, SQ2, 2.0, 5.0]
         fl = st.floats(0.0, 6.0, allow_nan=False)
@@ -267,6 +269,7 @@ def threshold(metric: str):
         fl.map(lambda v: {"v": v}),
         st.integers(0, 7).map(lambda i: {"score": i}),
         st.integers(0, 7).map(lambda i: {"score": i}),
+        *([] if metric == "ASSD" else [st.tuples(st.integers(0, 7), st.sampled_from([-1, 1])).map(lambda t: {"score": t[0], "nudge": t[1]})]),
     )
 
 
@@ -275,7 +278,8 @@ def resolve_threshold(spec, scores, default=0.5):
         return float(spec["v"])
     if not scores:
         return default
-    return float(sorted(scores)[spec["score"] % len(scores)])
+    t = float(sorted(scores)[spec["score"] % len(scores)])
+    return t * (1.0 + 2e-10 * spec["nudge"]) if spec.get("nudge") else t
 
 
 # ----------------------------------------------------------------------------- dtypes and label values
@@ -366,12 +370,14 @@ def tie_instance_pair(draw):
     instance of 6 voxels overlaps two prediction instances with exactly equal IoU (2/6 = 3/9) and Dice
     (4/8 = 6/12) but different volume and distance, so the result shows which candidate won the tie.
     Prediction labels are a drawn permutation, i.e. unrelated to positions."""
-    blocks = draw(st.lists(st.sampled_from(["simple", "tie", "tie", "tie_mirrored"]), min_size=1, max_size=4))
+    blocks = draw(st.lists(st.sampled_from(["simple", "tie", "tie", "tie_mirrored", "near_tie"]), min_size=1, max_size=4))
     ref, pred = [0], [0]
     nr = npd = 0
     for b in blocks:
         if b == "simple":
             r, q = [1, 1, 1, 0], [0, 1, 1, 1]
+        elif b == "near_tie":  # IoU 2/6 against 3/10: close, not equal
+            r, q = [1, 1, 1, 1, 1, 1, 0, 0, 0, 0], [1, 1, 0, 2, 2, 2, 2, 2, 2, 2]
         else:
             r, q = [1, 1, 1, 1, 1, 1, 0, 0, 0], [1, 1, 0, 2, 2, 2, 2, 2, 2]
             if b == "tie_mirrored":
@@ -441,11 +447,28 @@ def names(draw, n, alphabet=NAME_ALPHABET, max_size=7):
 
 
 @st.composite
+def subject_name_variants(draw, nms, limit):
+    """Subject names are compared as they are: add names that differ from existing ones only in case, in surrounding
+    blanks, or that look like numbers / row indices, up to `limit` names in total."""
+    out = list(nms)
+    for _ in range(draw(st.integers(0, 3))):
+        if len(out) >= limit:
+            break
+        base = draw(st.sampled_from(out))
+        cand = draw(st.sampled_from([base.upper(), base.lower(), base.swapcase(), " " + base, base + " ", str(draw(st.integers(0, 3))), "00" + str(draw(st.integers(0, 3))), "1e0", "NA", "nan"]))
+        if cand and cand.strip() and cand not in out:
+            out.append(cand)
+    return out
+
+
+@st.composite
 def group_defs(draw, labels=(1, 2, 3, 4, 5, 6, 9, 10, 11, 17, 19, 33, 200), max_groups=4, name_alphabet=NAME_ALPHABET):
     """Random partition of a subset of `labels` into 1-4 groups of kinds plain/merge/single."""
     ng = draw(st.integers(1, max_groups))
     perm = list(draw(st.permutations(list(labels))))
     nms = draw(names(ng, alphabet=name_alphabet))
+    if draw(st.integers(0, 9)) == 0 and not any(n.lower() == "ungrouped" for n in nms):
+        nms[draw(st.integers(0, ng - 1))] = draw(st.sampled_from(["ungrouped", "Ungrouped"]))  # the name group-less evaluators report under
     groups = []
     for i in range(ng):
         if not perm:
